@@ -200,7 +200,16 @@ def _mirjalili(ctx, col):
         ("app", "np.repeat", (valid, T_add(D, ONE), ("kw", "axis", ZERO))),
     ))
     o2, f2 = ctx.ct.require(cls, "_construct_random_event_space")
-    ok3 = ev is not None and same(ev, want)
+    # np.tile(v, k) flattened to a column cycles v exactly like np.repeat(v.reshape(1, -1), k, axis=0) does
+    def _untile(t):
+        if isinstance(t, tuple) and t and t[0] == "app":
+            args = tuple(_untile(a) for a in t[2])
+            if t[1] == "np.tile" and len(args) == 2:
+                return ("app", "np.repeat", (("app", "reshape", (args[0], ONE, K(-1))), args[1], ("kw", "axis", ZERO)))
+            return ("app", t[1], args)
+        return t
+
+    ok3 = ev is not None and same(_untile(ev), want)
     col.add("R13.3", "MirjaliliPlateletPerishable._construct_random_event_space", o2.module.relpath, f2.lineno, ok3,
             "events == demands(0..D) x {splits in [0,Q]^m, sum <= Q}, aligned as a full cross product" if ok3 else
             f"event space is {brief(ev, 500) if ev else None}", text="event space cross product")
